@@ -109,6 +109,7 @@ def rules_for(pid):
             ("D-atomic-latest", lambda c: _only(RJ.d_rules(c.P, c.E, c.H), ("D1", "D2"), ("sample", "debounce")), 2),
             ("GATE", lambda c: ROPS.gates_rule(c.P, c.E, c.H), 3),
             ("AMB", lambda c: ROPS.amb_rule(c.P, c.E, c.H), 1),
+            ("SEQ-EQ", lambda c: ROPS.seq_equal_rule(c.P, c.E, c.H), 1),
         ],
         "C04": [
             ("H-error", lambda c: RH.h_error(c.P, c.E, c.H), 26),
